@@ -308,13 +308,17 @@ func (r *c12Run) interleaveAct(a c12Act) {
 }
 
 // restart replaces the coordinator by a new one over the same store (broker restart /
-// coordinator hand-over). Only done when the persisted group is Stable or absent: a group
-// persisted in the middle of a rebalance is C15's subject, not this machine's.
+// coordinator hand-over). Only done when the persisted group is Stable, Completing or absent.
 func (r *c12Run) restart() bool {
 	rec, err := r.store.FetchConsumerGroup(context.Background(), c12Group)
-	if err != nil || (rec != nil && rec.GetState() != groupStateStableStr) {
-		r.class("restart/skipped-persisted-group-not-stable")
+	// Stable, or CompletingRebalance (every member has joined the generation, which is what the
+	// restore assumes); a group persisted in PreparingRebalance is C15's subject.
+	if err != nil || (rec != nil && rec.GetState() != groupStateStableStr && rec.GetState() != groupStateCompletingStr) {
+		r.class("restart/skipped-persisted-group-preparing")
 		return false
+	}
+	if rec != nil {
+		r.class("restart/persisted-" + rec.GetState())
 	}
 	pre := c12Peek(r.c)
 	r.observe(pre)
